@@ -55,8 +55,21 @@ for m, tier, cap in ((1, "quick", 600), (2, "quick", 900)):
     add("f_on_events_m%d" % m, FFI, "verif_kani", ["C20"], tier=tier, cap_s=cap, mem_gb=16, group="f_on_events_m%d" % m, cls="B",
         encodes=["maybenot_on_events", "MaybenotFramework::on_events", "convert_event", "convert_action",
                  "Framework::trigger_events / process_event (real)"],
-        bounds="%d machines, one global event with any id, every machine step returns ANY well-formed action; output buffer of "
+        bounds="%d machines, one TunnelRecv event with any id, every machine step returns ANY well-formed action; output buffer of "
                "exactly num_machines slots between two canaries; Instant::now stubbed to any instant" % m)
+
+add("f_on_events_empty", FFI, "verif_kani", ["C20"], cap_s=600, mem_gb=16, group="f_on_events_empty", cls="B",
+    encodes=["maybenot_on_events", "MaybenotFramework::on_events", "Framework::trigger_events (real)"],
+    bounds="one machine, an EMPTY batch, stale count and buffer in the caller's variables")
+for nm, tier, what in (("m1_bb", "quick", "1 machine, BlockingBegin with any id (a global event whatever id it carries)"),
+                       ("m2_bb", "thorough", "2 machines, BlockingBegin with any id"),
+                       ("m1_ps0", "quick", "1 machine, PaddingSent for machine 0"),
+                       ("m1_psu", "quick", "1 machine, PaddingSent for any id that names no machine"),
+                       ("m1_te0", "thorough", "1 machine, TimerEnd for machine 0")):
+    add("f_on_events_" + nm, FFI, "verif_kani", ["C20"], tier=tier, cap_s=900, mem_gb=20, group="f_on_events_" + nm, cls="B",
+        encodes=["maybenot_on_events", "MaybenotFramework::on_events", "convert_event", "convert_action",
+                 "Framework::trigger_events / process_event (real)"],
+        bounds=what + "; the machine step returns ANY well-formed action; canaries around the output slots")
 
 # ---------------------------------------------------------------- C06 (state.rs)
 for k, cap, tier in ((1, 120, "quick"), (2, 240, "quick"), (3, 900, "thorough"), (4, 2400, "thorough")):
@@ -156,6 +169,11 @@ add("l2_m0", MB, FW + "::l2", L2_PROPS, tier="quick", cap_s=300, mem_gb=12, owne
     kargs=["--no-assertion-reach-checks"], encodes=L2_ENC,
     bounds="one call, one fully symbolic event (10 kinds, any usize id), ZERO machines, any time")
 L2_QUICK = {"l2_m2_e3", "l2_m2_e4_i1", "l2_m2_e4_iu", "l2_m2_e6", "l2_m2_e7", "l2_m2_e8_i1"}
+for m, tier, cap in ((1, "quick", 900), (2, "thorough", 1800)):
+    add("l2_batch2_m%d" % m, MB, FW + "::l2", ["C01", "C04", "C05", "C08", "C09", "C10"], tier=tier, cap_s=cap, mem_gb=16, owner="C01",
+        cls="B", group="l2_batch2_m%d" % m, kargs=["--no-assertion-reach-checks"], encodes=L2_ENC,
+        bounds="one call with a batch of TWO events, each any of NormalRecv / PaddingRecv / TunnelRecv / TunnelSent, %d machines, "
+               "any Inv pre-state; machine steps by the transition contract TC" % m)
 for m, tier0, cap in ((1, "thorough", 600), (2, "quick", 900), (3, "thorough", 2400)):
     for k in range(10):
         if k in (4, 8, 9):
@@ -220,7 +238,13 @@ add("s_pick_next_two", SIM, SK, ["C14", "C15", "C19"], cap_s=1200, mem_gb=16, gr
     bounds="two queued NormalSent packets (one per side) at any two instants up to 1000 s after now, no machines, no blocking")
 
 
-add("s_pick_next_blocked", SIM, SK, ["C16", "C15", "C19"], cap_s=1200, mem_gb=20, group="s_pick_next_blocked", owner="C19",
+add("s_no_normal_packets", SIM, SK, ["C15"], cap_s=600, mem_gb=16, group="s_no_normal_packets", owner="C19",
+    encodes=["SimQueue::no_normal_packets", "EventQueue::no_normal_packets", "EventQueue::push"],
+    bounds="one pending event of any queueable kind (normal/padding, bypass flag any) on either side")
+add("s_push_aggregate_delay", SIM, SK, ["C19"], cap_s=900, mem_gb=16, group="s_push_aggregate_delay",
+    encodes=["NetworkBottleneck::push_aggregate_delay", "NetworkBottleneck::peek_aggregate_delay"],
+    bounds="any network delay and blocked duration up to one hour, either side, any instant")
+add("s_pick_next_blocked", SIM, SK, ["C16", "C15", "C19"], tier="thorough", cap_s=2400, mem_gb=20, group="s_pick_next_blocked", owner="C19",
     encodes=["pick_next", "queue_peek::peek_queue", "queue_peek::peek_queue_earliest_side", "peek_blocked_exp", "SimQueue::peek_blocking / pop"],
     bounds="one side blocked until any instant up to 1000 s ahead (bypassable or not), one TunnelSent packet (normal or padding, "
            "bypass flag any) queued on that side at any instant up to 1000 s ahead, no machines, no pending timers")
